@@ -122,8 +122,13 @@ func c06Matrix() []c06Case {
 		"m": val.Map(map[string]val.V{"x": val.Str("a"), "k": val.Map(map[string]val.V{"y": val.Num("1")}), "li": val.List(val.Str("a"), val.Str("b"))}),
 		"l": val.List(val.Str("a"), val.Map(map[string]val.V{"x": val.Str("a")}), val.List(val.Num("1"))),
 		"s": val.Str("a"),
+		// a map whose keys look like list positions, and a list: "[0]" addresses an element of a LIST, ".name" a
+		// member of a MAP - never the other way round, whatever the names look like
+		"nm": val.Map(map[string]val.V{"0": val.Str("a"), "1": val.Str("a"), "k": val.List(val.Str("a"))}),
 	}
 	paths := []refmodel.Path{
+		{{Name: "nm"}, {IsIdx: true, Idx: 0}}, {{Name: "nm"}, {IsIdx: true, Idx: 1}}, {{Name: "nm"}, {Name: "0", Alias: "#zero"}}, {{Name: "l"}, {Name: "0", Alias: "#zero"}}, {{Name: "l"}, {Name: "1", Alias: "#one"}},
+		{{Name: "m"}, {Name: "li"}, {Name: "1", Alias: "#one"}}, {{Name: "nm"}, {Name: "k"}, {Name: "0", Alias: "#zero"}}, {{Name: "nm"}, {Name: "k"}, {IsIdx: true, Idx: 0}},
 		refmodel.P("m", "x"), refmodel.P("m", "k", "y"), refmodel.P("m", "nope"), refmodel.P("nope", "x"), refmodel.P("s", "x"), refmodel.P("m", "x", "y"),
 		{{Name: "l"}, {IsIdx: true, Idx: 0}}, {{Name: "l"}, {IsIdx: true, Idx: 2}}, {{Name: "l"}, {IsIdx: true, Idx: 3}}, {{Name: "l"}, {IsIdx: true, Idx: 7}},
 		{{Name: "l"}, {IsIdx: true, Idx: 1}, {Name: "x"}}, {{Name: "l"}, {IsIdx: true, Idx: 2}, {IsIdx: true, Idx: 0}}, {{Name: "l"}, {IsIdx: true, Idx: 2}, {IsIdx: true, Idx: 1}},
